@@ -44,7 +44,9 @@ func kindTableOf(p *an.Prog, f *ssa.Function, depth int) *kindTable {
 		return t
 	}
 	for _, par := range f.Params {
-		if !isPkgType(par.Type(), "reflect", "Kind") {
+		// kinds, or a small integer type of the module's own that classifies kinds (the table then covers
+		// its values below kindCount; a lookup outside the table fails)
+		if !isPkgType(par.Type(), "reflect", "Kind") && !isModuleSmallInt(p, par.Type()) {
 			return t
 		}
 	}
@@ -87,6 +89,7 @@ func evalKindPoint(p *an.Prog, f *ssa.Function, args []int64, depth int) (int64,
 		x, ok := env[v]
 		return x, ok
 	}
+	maps := map[ssa.Value]*ssa.Global{}
 	blk := f.Blocks[0]
 	var prev *ssa.BasicBlock
 	for steps := 0; steps < 400; steps++ {
@@ -137,6 +140,12 @@ func evalKindPoint(p *an.Prog, f *ssa.Function, args []int64, depth int) (int64,
 					env[x] = 1
 				}
 			case *ssa.UnOp:
+				if g, isG := x.X.(*ssa.Global); isG && x.Op == token.MUL {
+					if _, ok := constMapOf(p, g); ok {
+						maps[x] = g // a package-level table of constants, read below
+						continue
+					}
+				}
 				if x.Op != token.NOT {
 					return 0, false
 				}
@@ -165,7 +174,19 @@ func evalKindPoint(p *an.Prog, f *ssa.Function, args []int64, depth int) (int64,
 					}
 					key[i] = v
 				}
-				env[x] = ct.val[key]
+				cv, in := ct.val[key]
+				if !in {
+					return 0, false
+				}
+				env[x] = cv
+			case *ssa.Lookup:
+				g := maps[x.X]
+				k, ok := get(x.Index)
+				if g == nil || !ok || x.CommaOk {
+					return 0, false
+				}
+				tab, _ := constMapOf(p, g)
+				env[x] = tab[k] // (a missing key reads as the zero value)
 			case *ssa.If:
 				c, ok := get(x.Cond)
 				if !ok {
@@ -191,4 +212,83 @@ func evalKindPoint(p *an.Prog, f *ssa.Function, args []int64, depth int) (int64,
 		prev, blk = blk, next
 	}
 	return 0, false
+}
+
+// isModuleSmallInt: a named integer type declared in the module (a class of kinds, say).
+func isModuleSmallInt(_ *an.Prog, t types.Type) bool {
+	n, ok := t.(*types.Named)
+	if !ok || !an.IsModulePkg(n.Obj().Pkg()) {
+		return false
+	}
+	b, ok := n.Underlying().(*types.Basic)
+	return ok && b.Info()&types.IsInteger != 0
+}
+
+var constMapMemo = map[*ssa.Global]map[int64]int64{}
+var constMapBad = map[*ssa.Global]bool{}
+
+// constMapOf: the content of a package-level map from integers (kinds) to integers that is built once, in
+// the package initialiser, from constants, and that no function of the module stores into afterwards.
+func constMapOf(p *an.Prog, g *ssa.Global) (map[int64]int64, bool) {
+	if t, ok := constMapMemo[g]; ok {
+		return t, true
+	}
+	if constMapBad[g] {
+		return nil, false
+	}
+	constMapBad[g] = true
+	st := an.GlobalStores(g)
+	if len(st) != 1 {
+		return nil, false
+	}
+	mk, ok := st[0].(*ssa.MakeMap)
+	if !ok || mk.Referrers() == nil {
+		return nil, false
+	}
+	tab := map[int64]int64{}
+	for _, u := range *mk.Referrers() {
+		switch x := u.(type) {
+		case *ssa.MapUpdate:
+			k, ok1 := an.ConstInt(x.Key)
+			v, ok2 := an.ConstInt(x.Value)
+			if !ok1 || !ok2 || x.Map != ssa.Value(mk) {
+				return nil, false
+			}
+			tab[k] = v
+		case *ssa.Store:
+			if x.Addr != ssa.Value(g) {
+				return nil, false
+			}
+		case *ssa.DebugRef:
+		default:
+			return nil, false
+		}
+	}
+	// nothing else writes the map: every load of the global is used only for lookups and len
+	okAll := true
+	for _, fn := range p.Funcs {
+		an.EachInstr(fn, func(in ssa.Instruction) {
+			ld, isLd := in.(*ssa.UnOp)
+			if !isLd || ld.Op != token.MUL || ld.X != ssa.Value(g) || ld.Referrers() == nil {
+				return
+			}
+			for _, u := range *ld.Referrers() {
+				switch y := u.(type) {
+				case *ssa.Lookup:
+					if y.X != ssa.Value(ld) {
+						okAll = false
+					}
+				case *ssa.DebugRef:
+				default:
+					okAll = false
+				}
+			}
+		})
+	}
+	if !okAll {
+		return nil, false
+	}
+	delete(constMapBad, g)
+	constMapMemo[g] = tab
+	return tab, true
 }
